@@ -16,7 +16,9 @@ STMT_KINDS = ["restart", "error", "esi", "synthetic", "synthetic.base64"] + ["re
 TYPES = ["INTEGER", "FLOAT", "STRING", "BOOL", "RTIME", "TIME", "IP", "BACKEND", "ACL", "header"]
 ASSIGN_OPS = ["=", "+=", "-=", "*=", "/=", "%=", "|=", "&=", "^=", "<<=", ">>=", "rol=", "ror=", "&&=", "||="]
 CMP_OPS = ["==", "!=", "<", ">", "<=", ">=", "~", "!~"]
-FORMS = ["lit", "local", "predef", "plit", "plocal", "ppredef", "ifexp", "call"]
+FORMS = ["lit", "local", "predef", "plit", "plocal", "ppredef", "ifexp", "call",
+         "dinit", "dexpr", "copy", "compound", "default", "inif"]
+PROV_FORMS = ["dinit", "dexpr", "copy", "compound", "default", "inif"]
 BASE_FORM = {"plit": "lit", "plocal": "local", "ppredef": "predef"}
 COERCE_CTX = ["arg", "ret", "par"]
 VALUE_TYPES = ["INTEGER", "FLOAT", "STRING", "BOOL", "RTIME", "TIME", "IP", "BACKEND", "ACL"]
@@ -41,11 +43,17 @@ def form_exists(ty, form):
         return ty != "header" and form_exists(ty, BASE_FORM[form])
     if form == "call":
         return ty != "header"
+    if form == "dinit":
+        return ty in LIT_TYPES
+    if form == "compound":
+        return ty in ("INTEGER", "FLOAT", "RTIME", "TIME", "STRING", "BOOL")
+    if form in PROV_FORMS:
+        return ty != "header"
     return True
 
 
 def op_positions():
-    """bit positions of an operator / coercion row: index = 8 * value type index + form index (absent forms stay 0)"""
+    """bit positions of an operator / coercion row: index = 14 * value type index + form index (absent forms stay 0)"""
     return [(r, f) for r in TYPES for f in FORMS]
 
 
@@ -182,6 +190,19 @@ def observe(tier="quick", only=None):
                 if form_exists(r, f):
                     reqs.append("cell O,%s,%s,%s,%s" % (op, l, r, f))
                     index.append((row, p, "cell"))
+    # provenance of the LEFT operand (right operand: literal or plain local)
+    o.opsleft = []
+    for op in ASSIGN_OPS + CMP_OPS:
+        for l in TYPES:
+            for lp in PROV_FORMS:
+                if not form_exists(l, lp):
+                    continue
+                row = {"op": op, "lty": l, "lprov": lp, "lint": [None] * len(pos), "interp": [None] * len(pos)}
+                o.opsleft.append(row)
+                for p, (r, f) in enumerate(pos):
+                    if f in ("lit", "local") and form_exists(r, f):
+                        reqs.append("cell L,%s,%s,%s,%s,%s" % (op, l, lp, r, f))
+                        index.append((row, p, "cell"))
     # a value of type T in each form where a value of type E is expected: built-in argument, return value, parameter
     o.coerce = []
     for cx in COERCE_CTX:
@@ -293,6 +314,41 @@ def observe(tier="quick", only=None):
     return o
 
 
+def fresh_process_check(rng, n_random=40):
+    """cells are independent programs run in long-lived harness processes: run a sample (every statement kind in every
+    single scope + random cells of the other tables) once in a FRESH process per cell and once at the end of a process
+    that first ran all 630 statement cells (single and two-scope, which is where shared state could be corrupted);
+    returns (sample size, list of (spec, fresh reply, long-lived reply) that differ)"""
+    sample = ["S,%s,%d" % (k, 1 << i) for k in STMT_KINDS for i in range(9)]
+    pos = op_positions()
+    for _ in range(n_random):
+        kind = rng.choice("VOCI")
+        if kind == "V":
+            sample.append("V,%s,%s,%d" % (rng.choice(["req.url", "req.http.X-Verif-One", "beresp.ttl", "resp.status", "client.ip", "obj.status"]),
+                                           rng.choice(VAR_OPS), rng.choice(MASKS)))
+        elif kind == "O":
+            t, f = rng.choice([c for c in pos if form_exists(*c)])
+            sample.append("O,%s,%s,%s,%s" % (rng.choice(ASSIGN_OPS + CMP_OPS), rng.choice(TYPES), t, f))
+        elif kind == "C":
+            t, f = rng.choice([c for c in pos if form_exists(*c)])
+            sample.append("C,%s,%s,%s,%s" % (rng.choice(COERCE_CTX), rng.choice(VALUE_TYPES), t, f))
+        else:
+            sample.append("IS,%s,%d,%d" % (rng.choice(STMT_KINDS), rng.choice(DEPTHS), rng.choice(PAIR_MASKS)))
+    fresh = [None] * len(sample)
+
+    def one(i0, step):
+        for i in range(i0, len(sample), step):
+            fresh[i] = V.run_batch(impl(), ["cell " + sample[i]], hang_s=30)[0]
+    ts = [threading.Thread(target=one, args=(i, 12)) for i in range(12)]
+    for t in ts:
+        t.start()
+    prefix = ["cell S,%s,%d" % (k, m) for k in STMT_KINDS for m in MASKS]
+    long_lived = V.run_batch(impl(), prefix + ["cell " + c for c in sample], hang_s=30)[len(prefix):]
+    for t in ts:
+        t.join()
+    return len(sample), [(c, a, b) for c, a, b in zip(sample, fresh, long_lived) if a != b]
+
+
 def show(spec):
     return V.run_batch(impl(), ["show " + spec])[0]
 
@@ -355,7 +411,7 @@ def write_obs(o):
     b.append("].\n")
     _write(os.path.join(gen, "ObsStmts.v"), "".join(b))
     b = [HEADER]
-    b.append("(* (context, expected type, linter accepts, simulator executes): bit 8 * value type index + form index *)\n")
+    b.append("(* (context, expected type, linter accepts, simulator executes): bit 14 * value type index + form index *)\n")
     b.append("Definition obs_coerce : list (string * string * N * N) := [\n")
     b.append(";\n".join("(%s, %s, %d, %d)" % (cs(r["ctx"]), cs(r["etype"]), lint_bits(r), interp_bits(r)) for r in o.coerce))
     b.append("].\n")
@@ -386,9 +442,13 @@ def write_obs(o):
     b.append("].\n")
     _write(os.path.join(gen, "ObsWide.v"), "".join(b))
     b = [HEADER]
-    b.append("(* (operator, left type, linter accepts, simulator executes): bit 8 * right type index + form index *)\n")
+    b.append("(* (operator, left type, linter accepts, simulator executes): bit 14 * right type index + form index *)\n")
     b.append("Definition obs_ops : list (string * string * N * N) := [\n")
     b.append(";\n".join("(%s, %s, %d, %d)" % (cs(r["op"]), cs(r["lty"]), lint_bits(r), interp_bits(r)) for r in o.ops))
+    b.append("].\n")
+    b.append("(* the same with a provenance of the LEFT operand: (operator, left type, left provenance, linter, simulator) *)\n")
+    b.append("Definition obs_ops_left : list (string * string * string * N * N) := [\n")
+    b.append(";\n".join("(%s, %s, %s, %d, %d)" % (cs(r["op"]), cs(r["lty"]), cs(r["lprov"]), lint_bits(r), interp_bits(r)) for r in o.opsleft))
     b.append("].\n")
     _write(os.path.join(gen, "ObsOps.v"), "".join(b))
 
@@ -460,10 +520,14 @@ def first_cell(row):
     if k.startswith("stmt-"):
         return "S,%s,%d" % (n, MASKS[positions(b, 45)[0]])
     if k.startswith("op-"):
-        r, f = op_positions()[positions(b, 80)[0]]
+        r, f = op_positions()[positions(b, 140)[0]]
         return "O,%s,%s,%s,%s" % (n, a, r, f)
+    if k.startswith("opl-"):
+        r, f = op_positions()[positions(b, 140)[0]]
+        lty, lprov = a.split(":")
+        return "L,%s,%s,%s,%s,%s" % (n, lty, lprov, r, f)
     if k.startswith("coerce-"):
-        r, f = op_positions()[positions(b, 80)[0]]
+        r, f = op_positions()[positions(b, 140)[0]]
         return "C,%s,%s,%s,%s" % (n, a, r, f)
     if k.startswith("inferred-"):
         kind, at, depth = a.split(":")
@@ -487,6 +551,9 @@ WHAT = {
     "stmt-model": "statement guard model differs from the real linter",
     "op-model": "operator model (Model/LintOps.v) differs from the real linter",
     "op-interp-model": "simulator decision model (Model/InterpAssign.v) differs from the real simulator",
+    "opl-model": "operator model differs from the real linter (left operand provenance)",
+    "opl-interp-model": "simulator decision model differs from the real simulator (left operand provenance)",
+    "opl-interp": "accepted by the linter, fails in the simulator (left operand provenance)",
     "coerce-model": "coercion model (Model/LintOps.v lint_coerce_model) differs from the real linter",
     "coerce-interp-model": "coercion model (Model/InterpAssign.v interp_coerce_model) differs from the real simulator",
     "coerce-interp": "accepted by the linter, fails in the simulator",
@@ -501,11 +568,11 @@ WHAT = {
 
 def describe(row):
     k, n, a, b = row["kind"], row["name"], row["at"], row["bits"]
-    if k.startswith("op-"):
-        where = ", ".join("%s %s" % op_positions()[p] for p in positions(b, 80))
+    if k.startswith("op-") or k.startswith("opl-"):
+        where = ", ".join("%s %s" % op_positions()[p] for p in positions(b, 140))
         return "%s %s %s [%s]: %s" % (a, n, "<value>", where, WHAT.get(k, k))
     if k.startswith("coerce-"):
-        where = ", ".join("%s %s" % op_positions()[p] for p in positions(b, 80))
+        where = ", ".join("%s %s" % op_positions()[p] for p in positions(b, 140))
         ctx = {"arg": "built-in argument", "ret": "return value of a functional subroutine", "par": "parameter of a functional subroutine"}[n]
         return "%s of type %s given [%s]: %s" % (ctx, a, where, WHAT.get(k, k))
     if k.startswith("inferred-"):
